@@ -42,11 +42,3 @@ func VerifDump(b *CircuitBreaker) string {
 	return fmt.Sprintf("%s,%d,%d,%d,%d,%d,%d,%s", st, b.openUntil.Load(), len(b.semCh), cur, lu,
 		b.lastFailure.Load(), b.lastSuccess.Load(), strings.Join(parts, ";"))
 }
-
-// VerifStaleToHalfOpen is the continuation of a tryAcquire that was preempted after it
-// evaluated `state == Open && now >= openUntil`: the very next thing it executes is toHalfOpen().
-func VerifStaleToHalfOpen(b *CircuitBreaker) { b.toHalfOpen() }
-
-// VerifStaleToClosed is the continuation of a record that was preempted after it evaluated
-// `b.State() == HalfOpen`: the very next thing it executes is toClosed().
-func VerifStaleToClosed(b *CircuitBreaker) { b.toClosed() }
